@@ -99,7 +99,8 @@ Definition struct_len (fld : N) : nat :=
          4 MCTPTransportHeader::new(v)   5 MCTPControlMessageHeader::new(raw as [rq;d;inst;cmd])
          6 SMBusRoutingInformationUpdateEntry::new(raw as [ty;range;first;phys])  7 PCIMessageFormat::new(v)
          8 IANAMessageFormat::new(v)   9 MCTPMessageBodyHeader::new(false, v as MessageType)
-         10 generate_transport_header(dest = v) on a context of address fld   11 generate_smbus_header likewise *)
+         10 generate_transport_header(dest = v) on a context of address fld   11 generate_smbus_header likewise
+         12 getter / 13 setter over a buffer of any length   14 the unimplemented!() request encoders *)
 Definition hdr_op (what fld : N) (raw : list N) (v : N) : obs :=
   match what with
   | 0 => match field_of fld with
@@ -120,6 +121,21 @@ Definition hdr_op (what fld : N) (raw : list N) (v : N) : obs :=
   | 9 => match body_header_new false v with Val b => XBytes b | Panic _ => XPanic [] end
   | 10 => XBytes (generate_transport_header fld v)
   | 11 => XBytes (generate_smbus_header fld v)
+  (* 12 / 13: getter / setter of field fld through a view over a buffer of ANY length (the views are generic in their
+     storage): the bit loops index self.0[i / 8] for the declared bit indices i only, so the call panics (index out of
+     range) exactly when the field's last byte lies beyond the buffer, and never looks at later bytes *)
+  (* 14: the three request encoders that end in unimplemented!() (v mod 256 in {18, 19, 21} names which), called on a
+     fresh context of address v / 256 with destination fld and buffer raw: always a panic, the buffer as the packet
+     writer left it *)
+  | 14 => let id := v mod 256 in
+          if (id =? 18) || (id =? 19) || (id =? 21)
+          then XPanic (fst (req_stub true ((v / 256) mod 256) fld raw)) else XBad
+  | 12 => match field_of fld with
+          | Some f => if (f_hi f / 8 <? length raw)%nat then XVal (get_field f raw) else XPanic []
+          | None => XBad end
+  | 13 => match field_of fld with
+          | Some f => if (f_hi f / 8 <? length raw)%nat then XBytes (set_field f raw v) else XPanic []
+          | None => XBad end
   | _ => XBad
   end.
 
